@@ -148,7 +148,7 @@ def exHeap : Heap Int := ⟨#[1, 2, 3, 4, 0, 0], true⟩
 def exEnv : Env := fun v => readVar 2 exHeap v
 def exD : DVar := ⟨0, 1⟩
 def exProg : List OpD := [.svpPrepare 0 exX, .svp exD 0 exY, .idft exZ exD, .coeff (.add exZ exZ exX)]
-def exA : AState := ⟨exEnv, fun _ => none, fun _ => none, fun _ => none⟩
+def exA : AState := ⟨exEnv, fun _ => none, fun _ => none, fun _ => none, fun _ => none⟩
 def exS : CState ℚ := ⟨exHeap, fun _ => #[], fun _ => #[], fun _ => #[]⟩
 def exFl : Flags := ⟨false, false, false, false, false⟩
 
@@ -166,6 +166,27 @@ example : ∀ i t, i < exZ.size → t < 2 →
 example : (run (astepD 2) exProg exA).env exZ = #[#[-4, 12]] := by decide +kernel
 /-- the implementation-level run, evaluated (the model of the library with the network module) -/
 example : (run (cstepD (exactParts ratRoot exFl) 2) exProg exS).heap.mem = #[1, 2, 3, 4, -4, 12] := by decide +kernel
+
+/-! `vmp_apply_dft_to_dft` (`OpD.vmpDD`) applied to a PRODUCT (exact arithmetic has no rounding to propagate, so products of
+    products are covered): `P := svp_prepare(x); D := svp_apply_dft(P, y); M := vmp_prepare(x);
+    D' := vmp_apply_dft_to_dft(D, M); z := idft(D')`, i.e. `z = (x·y)·x = (-5 + 10X)(1 + 2X) = -25 (mod X² + 1)` -/
+
+def exD2 : DVar := ⟨1, 1⟩
+def exM : MVar := ⟨0, 1, 1⟩
+def exProgDD : List OpD := [.svpPrepare 0 exX, .svp exD 0 exY, .vmpPrepare exM exX, .vmpDD exD2 exD exM, .idft exZ exD2]
+
+example : ∀ i t, i < exZ.size → t < 2 →
+    (readVar 2 (run (cstepD (exactParts ratRoot exFl) 2) exProgDD exS).heap exZ).coef i t
+      = ((run (astepD 2) exProgDD exA).env exZ).coef i t :=
+  prog_output_closed ratRoot exFl (fun h => by simp [exFl] at h) (hsz := 6) (vars := exVars) (WFb_sound _ _ _ (by decide)) exProgDD exA exS
+    ⟨⟨by decide, by decide, trivial⟩,
+     ⟨by decide, _, rfl, trivial⟩,
+     ⟨by decide, rfl, rfl, trivial⟩,
+     ⟨_, _, rfl, rfl, trivial⟩,
+     ⟨by decide, _, rfl, trivial⟩, trivial⟩
+    (RD_init _ exEnv exS (Rb_sound _ _ _ _ _ (by decide))) exZ (by decide)
+example : (run (astepD 2) exProgDD exA).env exZ = #[#[-25, 0]] := by decide +kernel
+example : (run (cstepD (exactParts ratRoot exFl) 2) exProgDD exS).heap.mem = #[1, 2, 3, 4, -25, 0] := by decide +kernel
 
 /-! the decidable characteristic-0 instance `k4Root` (`R = ℚ(√2, w)`, `m = 4`, `nn = 8`: reim4 layout, `fft4` kernels):
     the closed theorems apply, and the kernel EVALUATES the model through the network — both agree -/
@@ -201,7 +222,7 @@ def exVars8 : List Var := [exX8, exY8, exZ8]
 def exHeap8 : Heap Int := ⟨#[1, 2, 3, 4, 5, 6, 7, 8,  0, 1, 0, 0, 0, 0, 0, 1,  9, 9, 9, 9, 9, 9, 9, 9], true⟩
 def exEnv8 : Env := fun v => readVar 8 exHeap8 v
 def exProg8 : List OpD := [.svpPrepare 0 exX8, .svp exD 0 exY8, .idft exZ8 exD, .coeff (.negate exZ8 exZ8)]
-def exA8 : AState := ⟨exEnv8, fun _ => none, fun _ => none, fun _ => none⟩
+def exA8 : AState := ⟨exEnv8, fun _ => none, fun _ => none, fun _ => none, fun _ => none⟩
 def exS8 : CState K4 := ⟨exHeap8, fun _ => #[], fun _ => #[], fun _ => #[]⟩
 
 example : ∀ i t, i < exZ8.size → t < 8 →
